@@ -284,6 +284,49 @@ func checkPollDeadline(c *Ctx) {
 	R.Floor("R08.5:polls", n, 4)
 }
 
+// checkPerAttemptDeadlines is R08.7: on the run path no deadline context is created inside a retry loop. A context.WithTimeout
+// in the body of a for-loop that is not a range over a collection of distinct work items bounds one attempt, not the operation:
+// a responder that stalls every attempt holds the caller for trip-count x timeout, which is no longer the stated lookup timeout.
+// (The provider iteration of publicip is a range loop whose body calls a function; each provider is a distinct piece of work.)
+func checkPerAttemptDeadlines(c *Ctx, fs []*ssa.Function) {
+	R := c.R
+	n := 0
+	for _, f := range fs {
+		fn := core.FuncName(f)
+		// the auxiliary lookups (resolver, public-IP providers), whose timeout the property names as part of the bound; the
+		// serial engine's per-TTL budget is a counted loop over distinct TTLs and is decided by R08.2 / R08.4
+		if pk := core.ShortPkg(core.FuncPkg(f)); strings.Contains(fn, "Mock") || pk != "reversedns" && pk != "publicip" {
+			continue
+		}
+		for _, b := range f.Blocks {
+			for _, in := range b.Instrs {
+				call, ok := in.(*ssa.Call)
+				if !ok || call.Common().StaticCallee() == nil {
+					continue
+				}
+				name := call.Common().StaticCallee().String()
+				if name != "context.WithTimeout" && name != "context.WithDeadline" {
+					continue
+				}
+				n++
+				loop := innermostLoop(f, b)
+				if loop == nil {
+					R.OK("R08.7", fmt.Sprintf("%s#deadline-context[%d]", fn, n), call.Pos(), fn, name+" bounds the whole operation (not created per iteration)")
+					continue
+				}
+				isRange := false
+				for h := range loop {
+					if strings.HasPrefix(h.Comment, "range") {
+						isRange = true
+					}
+				}
+				R.Check(isRange, "R08.7", fmt.Sprintf("%s#deadline-context[%d]", fn, n), call.Pos(), fn, name+" is created per work item of a range loop", name+" is created inside a retry loop: the deadline bounds one attempt, not the operation, so a responder that stalls every attempt holds the caller for (number of attempts) x (timeout) instead of the stated timeout")
+			}
+		}
+	}
+	R.Floor("R08.7:deadline-contexts", n, 2)
+}
+
 // pollBounded: the duration is the poll parameter itself, or an expression over it and constants only (a cap, a margin) –
 // nothing read from the driver's configuration.
 func pollBounded(d *core.Term, want string) bool {
@@ -304,6 +347,7 @@ func runC08(c *Ctx) {
 	checkPollDeadline(c)
 	checkLookupsConcurrent(c, "R08.6")
 	fs := ModReach(c.P, c08Roots(c)...)
+	checkPerAttemptDeadlines(c, fs)
 	R.Analysed["run_path_functions"] = len(fs)
 	nprim := 0
 	kinds := map[string]int{}
